@@ -7,7 +7,7 @@
     with the library's per run; PickAPerm's answer is a minimum over the (unified) inputs, which are departure
     rankings of default BioConsert. *)
 From Corankco Require Import Prelude Scheme SchemeProof Rank KemenySpec CostTable OptTheory Markov Borda BioConsert
-     PickAPerm PickAPermProof Judge.JBio BioProof BioMoves BioLoop BioAlgo.
+     PickAPerm PickAPermProof Judge.JBio BioProof BioMoves BioLoop BioAlgo BioUser.
 Local Open Scope Z_scope.
 
 Theorem C09_select_best_min : forall one U results,
@@ -41,3 +41,33 @@ Theorem C09_local_search_monotone : forall K n fuel r m r' s, mirror K -> (0 < n
   bio_one fuel K n r = Some (r', s) -> s = score_vec K n r' /\ s <= score_vec K n r.
 Proof. intros K n fuel r m r' s M Hn HD E. destruct (bio_one_spec K n fuel r m r' s M Hn HD E) as (A & B & _). split; assumption. Qed.
 Print Assumptions C09_local_search_monotone.
+
+(** in the terms of the statement: default BioConsert always answers; every returned ranking is a ranking of the
+    universe with the reported generalized Kemeny score, which is at most the score of every input ranking completed
+    with its missing elements in a last bucket and of the all-tied ranking *)
+Theorem C09_default_bioconsert : forall s D one,
+  valid s -> (0 < length (universe D))%nat ->
+  (forall r, In r D -> NoDup (elems r) /\ Forall (fun b => b <> []) r) ->
+  let U := universe D in let n := length U in let K := cost_table s D in
+  let deps := departures_plain D in
+  exists sc rs, bioconsert_on (fuel_for K n deps) one s D deps = Some (sc, rs) /\ rs <> [] /\ (one = true -> length rs = 1%nat) /\
+    (forall c, In c rs ->
+       Permutation (elems c) U /\ Forall (fun b => b <> []) c /\ kemeny_spec s D c = sc /\
+       exists v, c = decode_vec U v /\ local_opt K n v THR = true) /\
+    (forall r, In r (start_rankings D) -> sc <= kemeny_spec s D r).
+Proof. exact bioconsert_default. Qed.
+Print Assumptions C09_default_bioconsert.
+
+(** with starting algorithms: at most the score of the consensus of each of them *)
+Theorem C09_with_starters : forall s D one starts,
+  valid s -> (0 < length (universe D))%nat -> starts <> [] ->
+  (forall c, In c starts -> Permutation (elems c) (universe D) /\ Forall (fun b => b <> []) c) ->
+  let U := universe D in let n := length U in let K := cost_table s D in
+  let deps := departures_from D starts in
+  exists sc rs, bioconsert_on (fuel_for K n deps) one s D deps = Some (sc, rs) /\ rs <> [] /\ (one = true -> length rs = 1%nat) /\
+    (forall c, In c rs ->
+       Permutation (elems c) U /\ Forall (fun b => b <> []) c /\ kemeny_spec s D c = sc /\
+       exists v, c = decode_vec U v /\ local_opt K n v THR = true) /\
+    (forall c0, In c0 starts -> sc <= kemeny_spec s D c0).
+Proof. exact bioconsert_with_starters. Qed.
+Print Assumptions C09_with_starters.
